@@ -179,7 +179,48 @@ def rule_replay(ctx: Ctx) -> None:
         ctx.fail("reverse.table", m, g, "get_clifford_tableau_from_graph no longer goes through clifford_from_stabilizer", func="get_clifford_tableau_from_graph")
 
 
+INVERSE_BLOCKS = [{"H"}, {"CNOT"}, {"CZ"}, {"P"}, {"H"}, {"X"}]
+
+
+def rule_inverse_blocks(ctx: Ctx) -> None:
+    """inverse.blocks: inverse_circuit reduces the canonical-form tableau by complete elimination passes in the order
+    Hadamard (pivots) - CNOT (X right of the diagonal) - CZ (Z right of the diagonal, on the tableau *after* all CNOTs) - P - H - X
+    (signs).  Each pass is its own sweep over the whole table: merging two passes into one `if / elif` sweep skips the second
+    elimination wherever both conditions hold (a Y, or a Z the CNOT itself creates), and reordering them breaks the echelon
+    argument each pass relies on."""
+    repo = ctx.repo
+    m = repo.module(STABF)
+    fn = repo.anchor(STABF, "inverse_circuit")
+    ctx.touch(m, fn)
+    seq = []
+    for st in fn.body:
+        if not isinstance(st, (ast.For, ast.While)):
+            continue
+        tags = set()
+        for c in calls_in(st):
+            if call_attr(c) == "append" and c.args and isinstance(c.args[0], ast.Tuple) and c.args[0].elts and isinstance(c.args[0].elts[0], ast.Constant):
+                tags.add(c.args[0].elts[0].value)
+        if tags:
+            seq.append((st, tags))
+    got = [t for _, t in seq]
+    if got == INVERSE_BLOCKS:
+        ctx.ok("inverse.blocks", m, fn, what="passes H, CNOT, CZ, P, H, X each in its own sweep, in this order")
+        return
+    merged = [(st, t) for st, t in seq if len(t) > 1]
+    if merged:
+        st, t = merged[0]
+        ctx.fail("inverse.blocks", m, st,
+                 f"inverse_circuit emits {sorted(t)} from one sweep: the {sorted(t)[-1]} elimination must be a complete pass over the table as it is after "
+                 f"the whole {sorted(t)[0]} pass; merged into one `if / elif` sweep a position that needs both gates gets only the first, a Z stays "
+                 f"right of the diagonal, and the returned gate list no longer maps the state to |0...0>", func="inverse_circuit",
+                 construct=f"inverse_circuit: passes {sorted(t)} merged into one sweep")
+    else:
+        ctx.fail("inverse.blocks", m, fn, f"inverse_circuit runs its elimination passes in the order {[sorted(t) for t in got]}; the reduction needs "
+                                          f"{[sorted(t) for t in INVERSE_BLOCKS]}", func="inverse_circuit", construct="inverse_circuit: order of elimination passes")
+
+
 def run(ctx: Ctx) -> None:
+    rule_inverse_blocks(ctx)
     repo = ctx.repo
     rule_reverse_table(ctx)
     gatesum.rule_derived_gates(ctx)
@@ -198,7 +239,17 @@ def run(ctx: Ctx) -> None:
     ctx.floor("emit.mirror", 6)
 
 
+def _swap_blocks(src: str) -> str:
+    a = src.find("    # CNOT block\n")
+    b = src.find("    # CZ block\n")
+    c = src.find("    # Phase gate block\n")
+    if min(a, b, c) < 0 or not a < b < c:
+        raise LookupError("knock-out anchor text missing")
+    return src[:a] + src[b:c] + src[a:b] + src[c:]
+
+
 KNOCKOUTS = [
+    Knockout("cz-before-cnot", STABF, _swap_blocks, "inverse.blocks", "order of elimination passes"),
     Knockout("clifford-cache-without-signs", RC, sub_once("def clifford_from_stabilizer(stabilizer_tableau):", "_CT_CACHE = {}\n\n\ndef clifford_from_stabilizer_cached(stabilizer_tableau):\n    key = (stabilizer_tableau.n_qubits, stabilizer_tableau.table.tobytes())\n    if key not in _CT_CACHE:\n        _CT_CACHE[key] = clifford_from_stabilizer(stabilizer_tableau)\n    return _CT_CACHE[key].copy()\n\n\ndef clifford_from_stabilizer(stabilizer_tableau):"), "memo.sound", "key does not determine"),
     Knockout("pivot-first-z", STABF, sub_once("tab_row_swap(tableau, pivot[0], z_list[-1])", "tab_row_swap(tableau, pivot[0], z_list[0])"), "pivot.choice", "Z-only pivot"),
     Knockout("consumed-input", RC, sub_once("    _, circuit = inverse_circuit(stabilizer_tableau.copy())", "    _, circuit = inverse_circuit(stabilizer_tableau)"),
